@@ -133,6 +133,13 @@ REG["C14"] = dict(
     assumptions=["K2: stub for thrift.Decoder.Decode (always fails: the footer is not decodable)", "footer length field of the symbolic file is assumed <= 16 to bound allocation"],
 )
 
+REG["C16"] = dict(
+    harnesses=[H(P, "VerifH_C16_refcountProtocol"), H(P, "VerifH_C16_cloneIndependent"), H(P, "VerifH_C16_inputsUnmodified"), H(P, "VerifH_C16_rowBufferInputs")],
+    explanation="(K2) reference counting of pooled page buffers (buffer.ref/unref, bufferPool.get/put, bufferedPage Retain/Release/Slice): for every history of operations in the bound the counts equal the number of holders and the contents stay while a holder remains (the pool's own panics on double put / non-zero count are reachable violations). (K3) Row.Clone / Value.Clone: cloned byte arrays equal the source, share no memory with it and are unaffected when the source buffer is overwritten; levels, column and kind are kept. (K4) the library does not modify caller input: optional and repeated column buffers' WriteValues, DedupeRowWriter.WriteRows, and RowBuffer.WriteRows (the caller's rows keep pointing at the caller's bytes and are unchanged by a later Reset and writes).",
+    bounds={"quick": "K2: 3 operations; K3: byte arrays 0..3 bytes; K4: 1..3 values/rows", "thorough": "K2: 4 operations"},
+    outside=["Read[T]/GenericReader.Read into Go values (reflection)", "values decoded from pooled page buffers surviving page release (DESIGN K1: needs the page decode path, not built)", "cross-goroutine pool reuse"],
+)
+
 LEVEL_TEXT = "bounded symbolic execution of the real functions (go/ssa of the current /repo tree) with an SMT solver deciding every assertion for all inputs inside the stated bounds; counterexamples are replayed against the natively compiled code before being reported"
 
 def main():
